@@ -111,6 +111,154 @@ theorem ex_closer (s : State) (h : Reach s) : chClosed s.closes s.ch = true → 
       · exact ⟨w, by rw [step_pc_other s s' t w hs hwt]; exact hw⟩
     · exact ⟨t, closed_rise s s' t (reach_inv s hr) hs (by simpa using he) he'⟩
 
+
+/-! ### at most one Close call, and no Send/Full together with it -/
+
+/-- "at most one Close call ever, and Send/Full never combined with Close" as a property of a state
+    (calls never disappear from a state, so it speaks about the whole history) -/
+def SingleCloser (s : State) : Prop :=
+  (∀ t u, closer (s.pc t) = true → closer (s.pc u) = true → t = u) ∧
+  (∀ t u, closer (s.pc t) = true → sender (s.pc u) = true → False)
+
+structure Good (s : State) : Prop where
+  nopanic : ∀ t, isPanic (s.pc t) = false
+  cl1 : ∀ c, s.closes c ≤ 1
+  sc : s.sentCloses = 0
+
+theorem closer_step (s s' : State) (t : Tid) (hs : step s t = some s') : closer (s'.pc t) = closer (s.pc t) := by
+  chan_unfold hs
+  all_goals (first
+    | (rename_i op first _; cases op <;> cases first <;> simp_all [State.setPc, closer, afterDo, Op.isClose]; done)
+    | (rename_i op _; cases op <;> simp_all [State.setPc, closer, afterDo, Op.isClose]; done)
+    | (rename_i op _ _; cases op <;> simp_all [State.setPc, closer, afterDo, Op.isClose]; done)
+    | (simp_all [State.setPc, closer, afterDo, Op.isClose]))
+
+theorem sender_step (s s' : State) (t : Tid) (hs : step s t = some s') : sender (s'.pc t) = sender (s.pc t) := by
+  chan_unfold hs
+  all_goals (first
+    | (rename_i op first _; cases op <;> cases first <;> simp_all [State.setPc, sender, afterDo, Op.isSend]; done)
+    | (rename_i op _; cases op <;> simp_all [State.setPc, sender, afterDo, Op.isSend]; done)
+    | (rename_i op _ _; cases op <;> simp_all [State.setPc, sender, afterDo, Op.isSend]; done)
+    | (simp_all [State.setPc, sender, afterDo, Op.isSend]))
+
+theorem single_closer_back (s s' : State) (t : Tid) (hs : step s t = some s') (H : SingleCloser s') :
+    SingleCloser s := by
+  have pcs : ∀ u, closer (s'.pc u) = closer (s.pc u) ∧ sender (s'.pc u) = sender (s.pc u) := by
+    intro u
+    by_cases hu : u = t
+    · subst hu; exact ⟨closer_step s s' u hs, sender_step s s' u hs⟩
+    · rw [step_pc_other s s' t u hs hu]; exact ⟨rfl, rfl⟩
+  refine ⟨fun a b ha hb => H.1 a b ?_ ?_, fun a b ha hb => H.2 a b ?_ ?_⟩
+  · rw [(pcs a).1]; exact ha
+  · rw [(pcs b).1]; exact hb
+  · rw [(pcs a).1]; exact ha
+  · rw [(pcs b).2]; exact hb
+
+theorem single_closer_back_call (s : State) (t : Tid) (op : Op) (hi : s.pc t = .idle)
+    (H : SingleCloser (s.setPc t (.start op))) : SingleCloser s := by
+  have pcs : ∀ u, closer (s.pc u) = true → closer ((s.setPc t (.start op)).pc u) = true := by
+    intro u hu
+    by_cases h : u = t
+    · subst h; simp [hi, closer] at hu
+    · simpa [State.setPc, h] using hu
+  have pss : ∀ u, sender (s.pc u) = true → sender ((s.setPc t (.start op)).pc u) = true := by
+    intro u hu
+    by_cases h : u = t
+    · subst h; simp [hi, sender] at hu
+    · simpa [State.setPc, h] using hu
+  exact ⟨fun a b ha hb => H.1 a b (pcs a ha) (pcs b hb), fun a b ha hb => H.2 a b (pcs a ha) (pss b hb)⟩
+
+theorem closedBy_closer (p : PC) : closedBy p = true → closer p = true := by
+  cases p <;> simp [closedBy, closer] <;> (intros; simp_all)
+
+theorem panic_origin (s s' : State) (t : Tid) (hs : step s t = some s') (hp' : isPanic (s'.pc t) = true) :
+    (s.pc t = .cClose ∧ (chClosed s.closes s.ch = true ∨ s.ch = .none)) ∨
+    (sender (s.pc t) = true ∧ chClosed s.closes s.ch = true) := by
+  chan_unfold hs
+  all_goals (first
+    | (rename_i op first _; cases op <;> cases first <;> simp_all [State.setPc, isPanic, afterDo]; done)
+    | (rename_i op _; cases op <;> simp_all [State.setPc, isPanic, afterDo]; done)
+    | (rename_i op _ _; cases op <;> simp_all [State.setPc, isPanic, afterDo]; done)
+    | (simp_all [State.setPc, isPanic, sender, chClosed]; try omega))
+
+theorem closes_change (s s' : State) (t : Tid) (hs : step s t = some s') (c : Nat)
+    (hc : s'.closes c ≠ s.closes c) : s.pc t = .cClose ∧ s.ch = .fresh c ∧ s'.closes c = s.closes c + 1 := by
+  chan_unfold hs
+  all_goals (simp only [State.setPc, runF_closes, ne_eq, not_true_eq_false] at hc)
+  all_goals (simp only [upd] at hc ⊢; split at hc <;> simp_all [State.setPc, upd])
+
+theorem sent_change (s s' : State) (t : Tid) (hs : step s t = some s')
+    (hc : s'.sentCloses ≠ s.sentCloses) : s.pc t = .cClose ∧ s.ch = .sentinel := by
+  chan_unfold hs
+  all_goals (first
+    | (rename_i op _; cases op <;> simp_all [State.setPc, runF]; done)
+    | (simp_all [State.setPc]))
+
+theorem good_step (s s' : State) (t : Tid) (inv : Inv s)
+    (exc : chClosed s.closes s.ch = true → ∃ w, closedBy (s.pc w) = true)
+    (H : SingleCloser s) (g : Good s) (hs : step s t = some s') : Good s' := by
+  -- a closed channel has a closer `w`; the stepping thread cannot be a second closer or a sender
+  have key : chClosed s.closes s.ch = true → (closer (s.pc t) = true → closedBy (s.pc t) = true) ∧
+      sender (s.pc t) = false := by
+    intro hc
+    obtain ⟨w, hw⟩ := exc hc
+    have hwc := closedBy_closer _ hw
+    refine ⟨fun ht => ?_, ?_⟩
+    · have := H.1 t w ht hwc; subst this; exact hw
+    · cases hsd : sender (s.pc t) with
+      | false => rfl
+      | true => exact (H.2 w t hwc hsd).elim
+  -- a thread at cClose never sees a closed or nil channel
+  have atClose : s.pc t = .cClose → chClosed s.closes s.ch = false ∧ s.ch ≠ .none := by
+    intro hp
+    refine ⟨?_, inv.dn (inv.pd t (by simp [hp, postDo]))⟩
+    cases hc : chClosed s.closes s.ch with
+    | false => rfl
+    | true => have := (key hc).1 (by simp [hp, closer]); simp [hp, closedBy] at this
+  refine ⟨fun u => ?_, fun c => ?_, ?_⟩
+  · by_cases hu : u = t
+    · subst hu
+      cases hp' : isPanic (s'.pc u) with
+      | false => rfl
+      | true =>
+        exfalso
+        rcases panic_origin s s' u hs hp' with ⟨h1, h2⟩ | ⟨h1, h2⟩
+        · have := atClose h1; rcases h2 with h2 | h2
+          · rw [this.1] at h2; cases h2
+          · exact this.2 h2
+        · have := (key h2).2; rw [h1] at this; cases this
+    · rw [step_pc_other s s' t u hs hu]; exact g.nopanic u
+  · by_cases hc : s'.closes c = s.closes c
+    · rw [hc]; exact g.cl1 c
+    · obtain ⟨h1, h2, h3⟩ := closes_change s s' t hs c hc
+      have := (atClose h1).1
+      rw [h2] at this
+      simp only [chClosed, decide_eq_false_iff_not, Nat.not_lt, Nat.le_zero_eq] at this
+      omega
+  · by_cases hc : s'.sentCloses = s.sentCloses
+    · rw [hc]; exact g.sc
+    · obtain ⟨h1, h2⟩ := sent_change s s' t hs hc
+      have := (atClose h1).1
+      rw [h2] at this; simp [chClosed] at this
+
+theorem good_init : Good init := by
+  constructor <;> simp [init, isPanic]
+
+/-- with at most one Close call (and no Send/Full next to it) nothing ever panics, no channel is
+    closed twice and the pre-closed sentinel is never closed -/
+theorem good_of_single_closer (s : State) (h : Reach s) (H : SingleCloser s) : Good s := by
+  induction h with
+  | init => exact good_init
+  | call s t op hr hi ih =>
+    have g := ih (single_closer_back_call s t op hi H)
+    refine ⟨fun u => ?_, g.cl1, g.sc⟩
+    by_cases hu : u = t
+    · subst hu; simp [State.setPc, isPanic]
+    · simpa [State.setPc, hu] using g.nopanic u
+  | step s s' t hr hs ih =>
+    have H0 := single_closer_back s s' t hs H
+    exact good_step s s' t (reach_inv s hr) (ex_closer s hr) H0 (ih H0) hs
+
 theorem reach_exec (s : State) (h : Reach s) (as : List Act) : Reach (exec s as) := by
   induction as generalizing s with
   | nil => exact h
